@@ -1216,10 +1216,17 @@ fn check_ops(ops: &[String]) -> Option<String> {
         let (o, arg) = op.split_once(':').unwrap_or((op.as_str(), ""));
         let name = arg.to_string();
         match o {
-            "add" => {
+            "add" | "addw" => {
                 fresh += 1;
                 let id = format!("id{fresh}");
-                let mut c = Element::new(name.clone(), vec![id.clone()]);
+                // "addw": a child with seven attributes (the identifying one first)
+                let mut at = vec![id.clone()];
+                if o == "addw" {
+                    for k in 0..6 {
+                        at.push(format!("w{k}"));
+                    }
+                }
+                let mut c = Element::new(name.clone(), at);
                 let mut g = Element::new("g".to_string(), vec![]);
                 g.text = Some(id.clone());
                 c.add_unique_child(g);
@@ -1383,10 +1390,15 @@ fn search_c16(tier: &str, _seed: u64) {
     let _ = idx;
     // beyond the exhaustive bound: seeded random sequences of 6..16 operations over four names
     let mut rng = Rng(_seed ^ 0xc16);
-    let big: Vec<String> = ["add:a", "add:b", "add:c", "add:d", "opt:a", "opt:b", "opt:c", "opt:d", "rem:a", "rem:b", "rem:c", "rem:d", "readd", "attr:k", "multi", "text"].iter().map(|s| s.to_string()).collect();
+    let mut big: Vec<String> = ["readd", "attr:k", "multi", "text"].iter().map(|s| s.to_string()).collect();
+    for nm in ["a", "b", "c", "d", "e", "f", "g", "h"] {
+        for op in ["add", "add", "addw", "opt", "rem"] {
+            big.push(format!("{op}:{nm}"));
+        }
+    }
     let rounds = if tier == "thorough" { 200000 } else { 20000 };
     for _ in 0..rounds {
-        let len = 6 + rng.below(11);
+        let len = 6 + rng.below(19);
         let ops: Vec<String> = (0..len).map(|_| big[rng.below(big.len())].clone()).collect();
         let key = ops.join(" ");
         stats.note(&key);
@@ -1396,7 +1408,7 @@ fn search_c16(tier: &str, _seed: u64) {
             break;
         }
     }
-    stats.print(&format!("EXHAUSTIVE: all sequences of length <= {maxlen} over the operations add a|b (fresh child with an identifying subtree), mark optional a|b, remove a|b, re-add the last removed child, merge attribute, set multiple, set text; compared after every step with an ordered-map model; rendering checked at the end; then seeded random sequences of 6-16 operations over four names"), &sample);
+    stats.print(&format!("EXHAUSTIVE: all sequences of length <= {maxlen} over the operations add a|b (fresh child with an identifying subtree), mark optional a|b, remove a|b, re-add the last removed child, merge attribute, set multiple, set text; compared after every step with an ordered-map model; rendering checked at the end; then seeded random sequences of 6-24 operations over eight names (children with one or seven attributes)"), &sample);
 }
 
 // ------------------------------------------------------------------------------------------------ main
